@@ -1,12 +1,19 @@
 /-
 Line-protocol driver: `driver <Cxx> < cases > verdicts`, one verdict line per case line.
-Each property contributes `Biogo.Drive.Cxx.handle : String → String`.
+Each module `Biogo/Drive/Cxx.lean` or `Biogo/Drive/Cxx_<part>.lean` contributes
+`ops : List String` (the first tokens it handles) and `handle : String → String`;
+`Driver/Handlers.lean` is generated from the files present.
 -/
-import Biogo.Drive.C17
+import Driver.Handlers
 
-def handlers : List (String × (String → String)) := [
-  ("C17", Biogo.Drive.C17.handle)
-]
+def pick (parts : List (List String × (String → String))) (line : String) : String :=
+  match parts with
+  | [(_, f)] => f line
+  | _ =>
+    let op := ((line.splitOn "\t").headD "").splitOn " " |>.headD ""
+    match parts.find? (fun p => p.1.contains op) with
+    | some (_, f) => f line
+    | none => "bad-line\t\tno part handles op " ++ op
 
 partial def loop (h : IO.FS.Stream) (out : IO.FS.Stream) (f : String → String) : IO Unit := do
   let line ← h.getLine
@@ -20,8 +27,8 @@ def main (args : List String) : IO UInt32 := do
   match args with
   | [id] =>
     match handlers.lookup id with
-    | some f =>
-      loop (← IO.getStdin) (← IO.getStdout) f
+    | some parts =>
+      loop (← IO.getStdin) (← IO.getStdout) (pick parts)
       return 0
     | none =>
       IO.eprintln s!"driver: no handler for {id}"
